@@ -146,6 +146,16 @@ def gen_cases(ctx):
     for lmax in range(L + 1):
         for mmax in range(lmax + 1):
             cases.append({"kind": "lm", "lmax": lmax, "mmax": mmax})
+    # sphere pair: constructor options (None defaults, ValueError branches) and default codomains, both directions
+    SL = 6 if ctx.quick else 12
+    for a in range(SL + 1):
+        cases.append({"kind": "sph", "cls": "lm", "a": a, "b": None})
+        cases.append({"kind": "sph", "cls": "gl", "a": a, "b": None})
+    for a in range(SL + 1):
+        for b in sorted(set([0, 1, 2, a, a + 1, 2 * a - 1 if a else 3, 2 * a, 2 * a + 1, 2 * a + 4] + [int(x) for x in rng.integers(0, 3 * SL, 2)])):
+            cases.append({"kind": "sph", "cls": "gl", "a": a, "b": b})
+            if ctx.quick is False or b <= a + 1:
+                cases.append({"kind": "sph", "cls": "lm", "a": a, "b": b})
     # harmonic RG tables, equal distances
     shapes = [[n] for n in range(1, 10)]
     shapes += [[a, b] for a in range(1, 7) for b in range(1, 7) if ctx.quick is False or (a + b) % 2 == 0 or a * b <= 6]
@@ -691,6 +701,21 @@ def run_case(case):
             for d in r["descs"]:
                 codes.append(d)
             obs["descs"] = codes
+        elif k == "sph":
+            def par(o):
+                return [int(o.lmax), int(o.mmax)] if type(o).__name__ == "LMSpace" else [int(o.nlat), int(o.nlon)]
+            try:
+                s = ift.LMSpace(case["a"], case["b"]) if case["cls"] == "lm" else ift.GLSpace(case["a"], case["b"])
+            except ValueError:
+                obs.update(rejected=True)
+            else:
+                c = s.get_default_codomain()
+                cc = c.get_default_codomain()
+                s.check_codomain(c)
+                c.check_codomain(s)
+                obs.update(rejected=False, vals=par(s) + [int(s.size)] + par(c) + [int(c.size)] + par(cc),
+                           types=[type(s).__name__, type(c).__name__, type(cc).__name__],
+                           shapes=[list(s.shape), list(c.shape)], back=bool(cc == s), harmonic=[bool(s.harmonic), bool(c.harmonic)])
         else:
             raise C.MachineryError("unknown case kind " + k)
     except C.MachineryError:
@@ -767,6 +792,17 @@ def coq_check_(case, obs):
         return " && ".join(parts)
     if obs["error"] is not None:
         return "false"
+    if k == "sph":
+        lm = case["cls"] == "lm"
+        b = "None" if case["b"] is None else "(Some %d%%nat)" % case["b"]
+        if obs["rejected"]:
+            o = "None"
+        else:
+            want = ["LMSpace", "GLSpace", "LMSpace"] if lm else ["GLSpace", "LMSpace", "GLSpace"]
+            if obs["types"] != want or obs["shapes"] != [[obs["vals"][2]], [obs["vals"][5]]] or obs["harmonic"] != [lm, not lm]:
+                return "false"
+            o = "(Some %s)" % cnats(obs["vals"])
+        return "sph_ok %s %d%%nat %s %s" % (C.cbool(lm), case["a"], b, o)
     if k == "lm":
         ks, uq = as_ints(obs["ks"]), as_ints(obs["uniq"])
         if ks is None or uq is None:
@@ -1113,6 +1149,30 @@ def direct_failure_(case, obs):
         return klength_failure(h) or volume_failure(h) or power_failure(h, case["binning"])
     if obs["error"] is not None:
         return "%s raised %s (%s)" % (k, obs["error"], obs.get("message"))
+    if k == "sph":
+        a, b = case["a"], case["b"]
+        valid = (b is None or b <= a) if case["cls"] == "lm" else (a >= 1 and (b is None or b >= 1))
+        if obs["rejected"] != (not valid):
+            return "%s(%r, %r): %s" % ("LMSpace" if case["cls"] == "lm" else "GLSpace", a, b,
+                                       "valid arguments rejected" if valid else "invalid arguments accepted")
+        if not valid:
+            return None
+        v = obs["vals"]
+        if case["cls"] == "lm":
+            if b is None and (v[1] != a or v[2] != (a + 1) ** 2):
+                return "LMSpace(lmax) is not LMSpace(lmax, lmax) with (lmax+1)^2 coefficients"
+            if not obs["back"] or v[6:8] != v[0:2]:
+                return "LMSpace: the default codomain of the default codomain is not the space itself"
+            if v[5] < v[2]:
+                return "LMSpace: the default Gauss-Legendre partner has fewer pixels than there are coefficients"
+        else:
+            if v[2] != v[0] * v[1]:
+                return "GLSpace: size is not nlat*nlon"
+            if v[4] > v[3] or v[3] < v[0] - 1 or v[4] != v[1] // 2:
+                return "GLSpace: the default codomain does not resolve nlat-1 / nlon//2"
+            if v[6] < v[0] or v[7] < v[1] or (b is None and v[6:8] != v[0:2]):
+                return "GLSpace: the codomain of the default codomain is coarser than the space (or, for the default nlon, not the space itself)"
+        return None
     if k == "lm":
         s = mk_space(["lm", case["lmax"], case["mmax"]])
         ks = np.array(obs["ks"])
@@ -1284,7 +1344,7 @@ class C08(C.Check):
         for c, o in zip(self.cases, self.obs):
             kinds[c["kind"]] = kinds.get(c["kind"], 0) + 1
             k = c["kind"]
-            if (k == "lm" and c["lmax"] >= 1) or (k in ("rgtab", "rgtab_q") and int(np.prod(c["shape"])) >= 3) or \
+            if (k == "lm" and c["lmax"] >= 1) or (k == "sph" and c["a"] >= 2 and not o.get("rejected", True)) or (k in ("rgtab", "rgtab_q") and int(np.prod(c["shape"])) >= 3) or \
                (k == "rggeom" and int(np.prod(c["shape"])) >= 2) or (k == "power" and o.get("hsize", 0) >= 3) or \
                (k == "qhist" and sum(1 for op in c["ops"] if op[0] in ("useful", "power_useful")) >= 1 and len(c["ops"]) >= 4) or \
                (k == "dof" and len(c["weights"]) >= 2) or (k == "dround") or (k == "xproc") or (k == "spell") or \
@@ -1293,7 +1353,7 @@ class C08(C.Check):
                 nontrivial.add(json.dumps(c, sort_keys=True))
         res.coverage.update({
             "evaluations": len(self.cases), "distinct_nontrivial": len(nontrivial),
-            "rule": "LMSpace all lmax<=%d,mmax<=lmax; harmonic RGSpace tables 1-D sizes 1-9, 2-D up to 6x6, 3-D up to 4^3 (equal and unequal distances, dyadic and non-dyadic); RG geometry 1-3 axes sizes 1-9 with None/scalar/tuple distances, both kinds; PowerSpace over RG 1-D/2-D and LM partners with natural, arbitrary ascending, at-k-value, linear and logarithmic bounds; DomainTuple/MultiDomain histories of make / make(obj) / pickle over a pool of %d domain spellings; histories of repeated get_unique_k_lengths / get_k_length_array / useful_binbounds / PowerSpace queries on ONE domain object (anisotropic and isotropic non-square RG up to 6x10, 1-D, LM) compared with a fresh object and the model; non-square equal-distance grids up to 6x10 / 4x6x9 in both axis orders; DOFSpace; identity classes of the cached power-index arrays; single domains of every class through pickle / deepcopy / double pickle (RG sizes incl. 49, 98, 103, 107 and non-dyadic distances, both kinds, also via the codomain): equality, hash, description, bit-exact geometry, canonical DomainTuple; every PowerSpace request repeated (retry after rejection, fresh equal partner); scalar / sequence / numpy spellings of every constructor argument of one description on rounding-sensitive values (equality, hash, bit-exact internal state and geometry, canonical DomainTuple / MultiDomain); pickles of DomainTuples / MultiDomains / single domains (hash already cached) loaded in fresh interpreters with different PYTHONHASHSEED next to freshly made equal objects; non-trivial = more than a couple of pixels, resp. a history with both identical and distinct results; distinct by full case" % (5 if ctx.quick else 8, len(SPELLINGS)),
+            "rule": "LMSpace/GLSpace constructors with default (None) and explicit second argument incl. the rejected ones, default codomain and its codomain (parameters, sizes, shapes, classes) for first argument <= 6 (12 thorough); LMSpace all lmax<=%d,mmax<=lmax; harmonic RGSpace tables 1-D sizes 1-9, 2-D up to 6x6, 3-D up to 4^3 (equal and unequal distances, dyadic and non-dyadic); RG geometry 1-3 axes sizes 1-9 with None/scalar/tuple distances, both kinds; PowerSpace over RG 1-D/2-D and LM partners with natural, arbitrary ascending, at-k-value, linear and logarithmic bounds; DomainTuple/MultiDomain histories of make / make(obj) / pickle over a pool of %d domain spellings; histories of repeated get_unique_k_lengths / get_k_length_array / useful_binbounds / PowerSpace queries on ONE domain object (anisotropic and isotropic non-square RG up to 6x10, 1-D, LM) compared with a fresh object and the model; non-square equal-distance grids up to 6x10 / 4x6x9 in both axis orders; DOFSpace; identity classes of the cached power-index arrays; single domains of every class through pickle / deepcopy / double pickle (RG sizes incl. 49, 98, 103, 107 and non-dyadic distances, both kinds, also via the codomain): equality, hash, description, bit-exact geometry, canonical DomainTuple; every PowerSpace request repeated (retry after rejection, fresh equal partner); scalar / sequence / numpy spellings of every constructor argument of one description on rounding-sensitive values (equality, hash, bit-exact internal state and geometry, canonical DomainTuple / MultiDomain); pickles of DomainTuples / MultiDomains / single domains (hash already cached) loaded in fresh interpreters with different PYTHONHASHSEED next to freshly made equal objects; non-trivial = more than a couple of pixels, resp. a history with both identical and distinct results; distinct by full case" % (5 if ctx.quick else 8, len(SPELLINGS)),
             "samples": [{"case": c} for c in self.cases[40:43]],
             "input_distribution": {"by_kind": kinds, "power_rejected": sum(1 for c, o in zip(self.cases, self.obs) if c["kind"] == "power" and o["error"] == "ValueError")},
             "disagreements": len(bad), "exhaustive": False,
